@@ -216,7 +216,6 @@ package container
 //@   callsite handleExecve$1 when cmd.SyncAfter: assert @C07 pid == 1
 //@   callsite (*Runner).Start: assert @C04 r.NoNewPrivs && r.DropCaps && r.SyncFunc == syncFunc && r.Seccomp == seccomp && r.Credential == cred
 
-
 // ---- Open: index alignment and planted objects (C14) ----
 
 // regular file or absent: the only states in which handleOpen may open the path
